@@ -114,6 +114,7 @@ class World:
         self.outcomes: list[str] = []
         self.violation: dict | None = None
         self.state_digests: set[str] = set()
+        self.scratch: dict = {}      # client-side objects that outlive a deck restart (e.g. ChartData objects)
         self.cur_event_index = -1
 
     # -- logging (never draws, never reads a real clock) --
